@@ -150,7 +150,7 @@ L1(e) ==
   \cup (IF e.tid_reused # <<>> THEN {"C09_TidsNotReused"} ELSE {})
   \* C01 (readers with a lookup or a put of the same key in flight): a get that joins a running lookup of its target is handed
   \* every value that lookup has already heard (whatever else it is handed first)
-  \cup (IF e.e = "api" /\ TOpOf[e.call] = "get" /\ e.proj.t[TTargetOf[e.call]].q_on /\ e.proj.t[TTargetOf[e.call]].q_kind = "get"
+  \cup (IF e.e = "api" /\ TOpOf[e.call] = "get" /\ e.call \notin SeqSet(e.abandoned) /\ e.proj.t[TTargetOf[e.call]].q_on /\ e.proj.t[TTargetOf[e.call]].q_kind = "get"
            /\ ~(SeqSet(e.proj.t[TTargetOf[e.call]].vals) \subseteq SeqSet(e.proj.got[e.call]))
         THEN {"C01_JoinerSeesCollected"} ELSE {})
   \* C17: concurrency errors are never produced for immutable puts
@@ -186,17 +186,22 @@ Skip == /\ Rec[l].e \in {"api", "tick"} /\ mode \in {"skip", "done"}
 \* The model's successor is computed for one HashMap order after the other until one reproduces the observation (usually
 \* the first: the order only matters when several targets send in the same tick).
 OrderSeq == <<<<"A", "B", "S">>, <<"B", "A", "S">>, <<"S", "A", "B">>, <<"A", "S", "B">>, <<"B", "S", "A">>, <<"S", "B", "A">>>>
+\* calls whose caller has dropped its receiving end are not observable any more: both sides show them as "abandoned"
+AbNow == SeqSet(Rec[l].abandoned)
+ProjA(m, expired) == LET p == Proj(m, expired) IN
+  [p EXCEPT !.done = [c \in DOMAIN p.done |-> IF c \in AbNow THEN "abandoned" ELSE p.done[c]],
+            !.got = [c \in DOMAIN p.got |-> IF c \in AbNow THEN <<>> ELSE p.got[c]]]
 RECURSIVE Search(_, _, _, _, _)
 Search(o, mk(_), expired, i, n) ==
   LET m == mk(i) IN
-  IF Diff(o, Proj(m, expired)) = {} THEN [ok |-> TRUE, m |-> m]
+  IF Diff(o, ProjA(m, expired)) = {} THEN [ok |-> TRUE, m |-> m]
   ELSE IF i >= n THEN [ok |-> FALSE, m |-> mk(1)]
   ELSE Search(o, mk, expired, i + 1, n)
 
 Judge(e, mk(_), n, expired) ==
   LET o == Obs(e.proj)
       r == Search(o, mk, expired, 1, n)
-      d == IF r.ok THEN {} ELSE Diff(o, Proj(r.m, expired))
+      d == IF r.ok THEN {} ELSE Diff(o, ProjA(r.m, expired))
       \* C09: the datagram read in this tick answers a request that had already expired, and the node's state differs from the
       \* model's - in which expired replies only leave the in-flight table - in a core field
       lateEffect == ~r.ok /\ e.e = "tick" /\ e.input.dir = "resp" /\ e.input.tid \in SeqSet(e.expired) /\ TouchesCore(d)
